@@ -5,6 +5,8 @@ Plain Python in the engine's subset: the engine *interprets* this source symboli
 uses share one text."""
 import math
 
+import py_ballisticcalc  # noqa: F401  (specifications name module-level settings through the package)
+
 from pyvc.rt import implies, forall, exists, approx, close, eq, ite, opaque
 
 
